@@ -80,6 +80,8 @@ class Monitor(object):
             i = m.bisect_left(x)
             if i > 0 and m.peekitem(i - 1)[1] != points:
                 self.moved += 1
+                ctx.sample('adjacent-pair-%s' % system, {'key': key, 'worse_mark': float(abs(m.peekitem(i - 1)[0])), 'worse_points': m.peekitem(i - 1)[1],
+                                                        'better_mark': float(abs(x)), 'better_points': points}, 2)
             if i < len(m) and m.peekitem(i)[1] != points:
                 self.moved += 1
         self.mono.add((system, key), x, points)
